@@ -38,6 +38,8 @@ STUB_PATCHES = {
     "effect_ewire": ("src/move_generator/mod.rs", _hdr("lazily_calculate_chess_move_effect"), "return self.ewire_effect(chess_move, board, player);"),
     "lru_get": ("src/move_generator/mod.rs", r"self\.cache\.get\(", "kani_verif::cwire::LruStub::get(&mut self.cache, ", "sub"),
     "lru_put": ("src/move_generator/mod.rs", r"self\.cache\.put\(", "kani_verif::cwire::lru_put(&mut self.cache, ", "sub"),
+    "map_get": ("src/move_generator/targets.rs", r"self\s*\.attacks_cache\s*\.get\(", "super::kani_verif::swire::MapStub::get(&self.attacks_cache, ", "sub"),
+    "map_insert": ("src/move_generator/targets.rs", r"self\s*\.attacks_cache\s*\.insert\(", "super::kani_verif::swire::MapStub::insert(&mut self.attacks_cache, ", "sub"),
     "gen_valid": ("src/move_generator/mod.rs", _hdr("generate_valid_moves"), "return kani_verif::cwire::gen_valid(board, color, targets);"),
     "acache_get": ("src/move_generator/targets.rs", _hdr("get_cached_attack"), "return self.cwire_get_cached(color, board_hash);"),
     "acache_put": ("src/move_generator/targets.rs", _hdr("cache_attack"), "return self.cwire_cache_attack(color, board_hash, attack_targets);"),
